@@ -687,7 +687,18 @@ func (m *Machine) binop(op token.Token, x, y Value, t types.Type, xt types.Type,
 			}
 			c, _ = isNil(o)
 		default:
-			c = m.cbool(fmt.Sprint(a.v) == fmt.Sprint(b.v) && a.typ == b.typ)
+			if !types.Identical(a.typ, b.typ) {
+				c = m.cbool(false)
+			} else if pa, ok := a.v.(Ptr); ok {
+				c = m.binop(token.EQL, pa, b.v, types.Typ[types.Bool], nil, pos).(VBool).c
+			} else {
+				c = m.cbool(fmt.Sprint(a.v) == fmt.Sprint(b.v))
+			}
+			if a.nilc != nil || b.nilc != nil {
+				na, _ := isNil(a)
+				nb, _ := isNil(b)
+				c = m.cor(cAnd(na, nb), cAnd(cAnd(cNot(na), cNot(nb)), c))
+			}
 		}
 		if op == token.NEQ {
 			c = cNot(c)
